@@ -36,7 +36,7 @@ fn env() -> &'static Env {
 }
 
 fn lock_req(entry: Entry, amt: u64, rcpt: Rcpt, conf: Conf, lockpol: LockPol, pools: Pools, lock: (u8, u32)) -> Req {
-    Req { entry, amt: Amt::Fixed(amt), rcpt, conf, lockpol, chg: Chg::Single, pools, everything: false, lock: Some(lock), selpol: Default::default() }
+    Req { entry, amt: Amt::Fixed(amt), rcpt, conf, lockpol, chg: Chg::Single, pools, everything: false, lock: Some(lock), selpol: Default::default(), allow: Default::default() }
 }
 
 fn alphabet(thorough: bool) -> Alphabet {
@@ -73,7 +73,7 @@ fn alphabet(thorough: bool) -> Alphabet {
             rewind: vec![1],
             clear_b: false,
             unlock_all: false,
-            mine_transparent_pending: false,
+            mine_transparent_pending: true,
             proposals: vec![
                 lock_req(Entry::Transfer, 30_000, Rcpt::Sapling, Conf::Min, LockPol::Exclude, Pools::All, (0, 0)),
                 lock_req(Entry::Transfer, 100_000, Rcpt::Sapling, Conf::Min, LockPol::PreferLockedX, Pools::All, (1, 50)),
@@ -731,6 +731,7 @@ pub fn run(args: &Args) -> i32 {
             "op:pututxo:spender-stored-before-coin",
             "op:pututxo:coin-first",
             "ok:pending-spent-coin-skipped",
+            "ok:unconfirmed-shielding-product-skipped",
             "state:has-expired-pending",
             "state:pending-expiry-equals-target",
             "state:lock-expiry-equals-target",
